@@ -9,6 +9,7 @@ store theorems for the model that mirrors the code.
 -/
 import Ymq.Props.C11
 import Ymq.Lemmas.RelationsWalkCor
+import Ymq.Lemmas.RelationsWalkBound
 
 namespace Ymq.C11
 open Ymq.Relations
@@ -79,24 +80,60 @@ theorem doubles_disjoint_stack (n fbsize maxlarge : Nat) (hn : n ≤ 2 ^ 512)
   obtain ⟨h1, h2⟩ := this (p, q) ⟨b, hb⟩
   exact ⟨fun c hc => h1 ⟨c, hc⟩, fun c hc => h2 ⟨c, hc⟩⟩
 
-/-- `add_no_panic` for the model that mirrors the code. PARTIAL: inside the callers' contract no
-assertion, unwrap, index or debug assertion of `add`/`combine_double_step`/`walk_doubles` is
-reachable; the errors left are a `u64` counter overflow and "out of iterations" of the `while` loop
-with the model's bound `Store.iterFuel` (2·L²·(L+1)+1, L = doubles.len() + doubles_rev.len()).
-What is missing for the full statement is an explicit iteration bound: termination itself is
-proved (`walk_stack_eq_rec` (2): the loop ends whenever the recursion does, and the recursion ends
-within doubles.len()+1 levels), the closed-form bound is validated by the correspondence runs only
-(up to chains of 1000/2000 links against the model). -/
-theorem add_no_panic_stack_partial (s : Store) (r : Relation) (pq : Option (Nat × Nat)) (hi : Inv s)
-    (hi2 : Inv2 s) (hn : s.n ≤ 2 ^ 512) (hin : InputOK2 s r pq) :
-    ∀ e, addStack r pq s = .error e → e = .overflow ∨ e = .fuel :=
-  addStack_np hi hi2 (by rw [X512_eq]; exact hn) hin
+/-- `walk_iter_bound`: the closed-form iteration bound of the explicit-stack walk. In a store
+satisfying `Inv` (`n ≤ 2^512`), whatever the recursive walk returns (other than "out of recursion
+fuel") the `while` loop returns within `Store.iterFuel = 2·L²·(L+1) + 1` iterations,
+`L = doubles.len() + doubles_rev.len()`: the recursion depth that overflowed the real stack is now a
+proved loop bound. (Accounting: a frame with k ≤ L keys costs 2k + 1 iterations of its own; every
+nested walk starts after a removal — the first action of a non-empty frame removes a stored double,
+for a frame with reverse keys only by the mirror invariant — so it runs with a smaller L; cost
+≤ 1 + K(L)·(L − L′), K(L) = 2L(L+1), K(L) − K(L−1) = 4L ≥ 4k.) -/
+theorem walk_iter_bound (root : Nat) (s : Store) (hi : Inv s) (hn : s.n ≤ 2 ^ 512) (f : Nat)
+    (R : M Store) (h : walkDoubles f root s = R) (hR : R ≠ .error .fuel) :
+    ∀ F, s.iterFuel ≤ F → walkStack F root s = R :=
+  fun _ hF => walkStack_bound ⟨hi, by rw [X512_eq]; exact hn⟩ h hR hF
 
-/-- `history_no_panic` for the model that mirrors the code (PARTIAL in the same sense). -/
-theorem history_no_panic_stack_partial (n fbsize maxlarge : Nat) (hn : n ≤ 2 ^ 512)
+/-- ... in particular, inside the contract (store satisfying `Inv` and `Inv2`, `root` a key of
+`partial`, as at every call site of `add`) the loop never returns "out of iterations". -/
+theorem walk_iter_bound_contract (root : Nat) (s : Store) (hi : Inv s) (hi2 : Inv2 s)
+    (hn : s.n ≤ 2 ^ 512) (hn0 : 0 < s.n) (hroot : ∃ b, (root, b) ∈ s.partials) :
+    ∀ F, s.iterFuel ≤ F → walkStack F root s ≠ .error .fuel ∧
+      walkStack F root s = walkDoubles (s.doubles.length + 1) root s := by
+  intro F hF
+  have hX : s.n ≤ X512 := by rw [X512_eq]; exact hn
+  have hnp := (walkDoubles_all (s.doubles.length + 1)).np root s hi hi2 hX hn0 hroot (Nat.lt_succ_self _)
+  have hR : walkDoubles (s.doubles.length + 1) root s ≠ .error .fuel := by
+    intro hc; have := hnp _ hc; cases this
+  have := walkStack_bound ⟨hi, hX⟩ rfl hR hF
+  exact ⟨by rw [this]; exact hR, this⟩
+
+/-- inside the validity contract the explicit-stack `add` returns exactly what the recursive `add`
+returns (all results other than "out of recursion fuel"), and so do whole histories. -/
+theorem add_stack_of_add (s : Store) (r : Relation) (pq : Option (Nat × Nat)) (hi : Inv s)
+    (hn : s.n ≤ 2 ^ 512) (hin : InputOK s.n r pq) (R : M Store) (h : add r pq s = R)
+    (hR : R ≠ .error .fuel) : addStack r pq s = R :=
+  addStack_of_add hi (by rw [X512_eq]; exact hn) hin h hR
+
+theorem history_stack_eq_rec (n fbsize maxlarge : Nat) (hn : n ≤ 2 ^ 512)
+    (ops : List (Relation × Option (Nat × Nat))) (hok : HistoryOK n ops) (R : M Store)
+    (h : runHistory ops (Store.new n fbsize maxlarge) = R) (hR : R ≠ .error .fuel) :
+    runHistoryStack ops (Store.new n fbsize maxlarge) = R :=
+  runHistoryStack_of_run ops _ R (inv_new n fbsize maxlarge) (by rw [X512_eq]; exact hn) hok h hR
+
+/-- `add_no_panic` for the model that mirrors the code: inside the callers' contract no assertion,
+unwrap, index or debug assertion of `add` / `combine_double_step` / `walk_doubles` is reachable and
+the `while` loop ends within `Store.iterFuel` iterations; the only error left is the `u64`
+exponent / cycle-length counter overflow, as in the recursive theorem. -/
+theorem add_no_panic_stack (s : Store) (r : Relation) (pq : Option (Nat × Nat)) (hi : Inv s)
+    (hi2 : Inv2 s) (hn : s.n ≤ 2 ^ 512) (hin : InputOK2 s r pq) :
+    ∀ e, addStack r pq s = .error e → e = .overflow :=
+  addStack_np_full hi hi2 (by rw [X512_eq]; exact hn) hin
+
+/-- `history_no_panic` for the model that mirrors the code. -/
+theorem history_no_panic_stack (n fbsize maxlarge : Nat) (hn : n ≤ 2 ^ 512)
     (ops : List (Relation × Option (Nat × Nat))) (hok : HistoryOK2 n maxlarge ops) :
-    ∀ e, runHistoryStack ops (Store.new n fbsize maxlarge) = .error e → e = .overflow ∨ e = .fuel :=
-  runHistoryStack_np ops _ (inv_new n fbsize maxlarge) (inv2_new n fbsize maxlarge)
+    ∀ e, runHistoryStack ops (Store.new n fbsize maxlarge) = .error e → e = .overflow :=
+  runHistoryStack_np_full ops _ (inv_new n fbsize maxlarge) (inv2_new n fbsize maxlarge)
     (by rw [X512_eq]; exact hn) hok
 
 /-- non-vacuity: on the history modulo 15 (single, partner, p = q double, double with one known
